@@ -14,6 +14,10 @@ from checks.c02 import _edges, _chunks
 
 LEVEL = "model_checking"
 
+# the machine is shared: cap every JVM (the default heap is a quarter of the RAM per process)
+JENV = {"JAVA_TOOL_OPTIONS": "-Xmx1500m"}
+JENV_BIG = {"JAVA_TOOL_OPTIONS": "-Xmx4g"}
+
 MANIFEST = dict(
     engine="tlc-codecconn", path="spec/CodecConn",
     technique="TLA+ monitor + implementation model checked exhaustively by TLC; TLC-generated transition covers and random histories replayed on the real CodecConn over a scripted in-memory stream and over real loopback TCP conns; hostile/random bytes fed to the frame decoder; recorded traces validated by TLC against the monitor",
@@ -39,7 +43,7 @@ def _replay_validate(ck, sw, beh, mode, label, tag, retry=True):
     if beh:
         args += ["-in", beh]
     summ, _ = vlib.run_replay(args, timeout=1500)
-    bads, _ = vlib.validate_trace(sw, "CodecConnMonTrace", "CodecConnMonTrace.cfg", trace, parallel=2)
+    bads, _ = vlib.validate_trace(sw, "CodecConnMonTrace", "CodecConnMonTrace.cfg", trace, parallel=2, extra_env=JENV)
     rejected = set()
     for sid, i, key in bads:
         if key in RETRY_KEYS and retry and beh and "kind=mem" not in mode:
@@ -50,7 +54,7 @@ def _replay_validate(ck, sw, beh, mode, label, tag, retry=True):
             for _k in range(3):
                 t2 = one + ".ndjson"
                 vlib.run_replay(["codecconn", "-in", one, "-out", t2, "-seed", str(ck.seed), "-mode", mode])
-                b2, _ = vlib.validate_trace(sw, "CodecConnMonTrace", "CodecConnMonTrace.cfg", t2, parallel=1)
+                b2, _ = vlib.validate_trace(sw, "CodecConnMonTrace", "CodecConnMonTrace.cfg", t2, parallel=1, extra_env=JENV)
                 again += 1 if any(k == key for _s, _i, k in b2) else 0
             if again < 3:
                 ck.inconclusive.append("%s seen once in scenario %d (%s) but only %d/3 re-executions" % (key, sid, label, again))
@@ -106,7 +110,7 @@ def run(ck):
 
     def design(name, consts, workers):
         cfg = vlib.cfg_with(sw, "CodecConnImpl_mc.cfg", consts)
-        r = vlib.tlc(sw, "CodecConnImpl", cfg, workers=workers, timeout=1500)
+        r = vlib.tlc(sw, "CodecConnImpl", cfg, workers=workers, timeout=1500, env=JENV_BIG)
         with ck.lock:
             ck.add_tlc("CodecConnImpl exhaustive: " + name, r, consts)
         if r.violated == "NotBad":
@@ -122,7 +126,7 @@ def run(ck):
     def bugdemo():
         consts = C(MaxItems=0, MaxW=1, MaxLen=1, BUG_NoCommit="TRUE")
         cfg = vlib.cfg_with(sw, "CodecConnImpl_mc.cfg", consts)
-        r = vlib.tlc(sw, "CodecConnImpl", cfg, workers=1, timeout=300)
+        r = vlib.tlc(sw, "CodecConnImpl", cfg, workers=1, timeout=300, env=JENV)
         with ck.lock:
             ck.cov["bug_switches"] = {"BUG_NoCommit": "NotBad violated" if r.violated == "NotBad" else "NOT detected"}
     futs.append(pool.submit(bugdemo))
@@ -131,12 +135,12 @@ def run(ck):
         if kind == "cover":
             consts = dict(consts, SampleK=k)
             cfg = vlib.cfg_with(sw, "CodecConnImpl_cover.cfg", consts)
-            r = vlib.tlc(sw, "CodecConnImpl", cfg, workers=1, timeout=1500, seed=ck.seed)
+            r = vlib.tlc(sw, "CodecConnImpl", cfg, workers=1, timeout=1500, seed=ck.seed, env=JENV)
             if not r.ok:
                 raise vlib.Inconclusive("CodecConnImpl cover %s: %s\n%s" % (name, r.violated or r.error, r.tail()))
         else:
             cfg = vlib.cfg_with(sw, "CodecConnImpl_sim.cfg", consts)
-            r = vlib.tlc(sw, "CodecConnImpl", cfg, workers=1, simulate=num, depth=depth, seed=ck.seed * 1000 + len(name), timeout=1500)
+            r = vlib.tlc(sw, "CodecConnImpl", cfg, workers=1, simulate=num, depth=depth, seed=ck.seed * 1000 + len(name), timeout=1500, env=JENV)
             if r.violated or (r.error and "timeout" in r.error):
                 raise vlib.Inconclusive("CodecConnImpl simulation %s: %s\n%s" % (name, r.violated or r.error, r.tail()))
         with ck.lock:
